@@ -27,6 +27,7 @@ func vLooseArgs(maxArgs, maxLen int, kw bool) [][]byte {
 // has been answered: exactly one well-formed reply per request, in order.
 func HarnessC03Pipeline() {
 	cmd := vsymParam("cmd")
+	vsymTag("cmd", cmd)
 	maxArgs := vsymParamInt("maxargs", 3)
 	maxLen := vsymParamInt("maxlen", 2)
 	kw := vsymParamInt("kw", 0) == 1
